@@ -217,10 +217,17 @@ def worker_main(a):
         if a.only is not None:
             idxs = [a.only]
             rep.verbose = True
+            if a.prefix_shards:
+                # the case together with the cases that ran before it in its shard (state carried between cases: library-level
+                # counters, class-level state), quietly up to the case itself
+                idxs = range(a.only % a.prefix_shards, a.only + 1, a.prefix_shards)
+                rep.verbose = False
         else:
             idxs = range(a.shard, total, a.nshards)
         for idx in idxs:
             rep.cur = idx
+            if a.only is not None and idx == a.only:
+                rep.verbose = True
             rng = case_rng(a.seed, idx)
             try:
                 if hasattr(mod, 'case_reset'):
@@ -312,6 +319,8 @@ def master_main(a):
             '--shard', str(s), '--nshards', str(nshards), '--out', out, '--repo', repo]
         if a.only is not None:
             cmd += ['--only', str(a.only)]
+            if a.prefix:
+                cmd += ['--prefix-shards', str(int(os.environ.get('PV_SHARDS', P.get('shards', 8))))]
         log = open(os.path.join(scratch, f'shard{s}.log'), 'w')
         procs.append((s, out, log, subprocess.Popen(cmd, cwd=VERIF, env=env,
                                                     stdout=(None if a.only is not None else log),
@@ -472,6 +481,8 @@ def main(argv=None):
     ap.add_argument('--out')
     ap.add_argument('--only', type=int, default=None, help='run only the case with this index, verbosely')
     ap.add_argument('--replay', help='replay file written on a violation')
+    ap.add_argument('--prefix', action='store_true', help='with --only/--replay: first run the cases that preceded it in its shard')
+    ap.add_argument('--prefix-shards', type=int, default=0)
     ap.add_argument('--no-evidence', action='store_true')
     a = ap.parse_args(argv)
     if a.worker_prop:
@@ -483,6 +494,7 @@ def main(argv=None):
         a.prop, a.tier, a.seed, a.only = r['property'], r['tier'], r['seed'], r['idx']
         print(f'replaying {a.prop} tier={a.tier} seed={a.seed} case={a.only}: expected key {r["key"]}')
         print(f'  recorded: {r["msg"][:800]}')
+        print('  (if the case alone does not reproduce it, add --prefix: the cases that ran before it in its shard are run first)')
     if not a.prop or a.prop not in PROPS:
         ap.error('property id C01..C20 required')
     return master_main(a)
